@@ -8,7 +8,14 @@
             lost one `}` is rejected strictly (lost_brace_strict_fails) and
             accepted tolerantly (lost_brace_repaired);
    Stage 3  an environment body closes only at an Escape+`end` pair, a
-            bracket argument only at a `]`.
+            bracket argument only at a `]` (local statements, lifted to a
+            construct that follows text at the top level);
+   Stage 3+ a strict success means every `\begin` was matched by an `\end`
+            (strict_success_envs_matched, by counting as in Stage 2), hence a
+            lost `\end{name}` is rejected strictly wherever it is nested
+            (lost_end_repaired_count);
+   Sec. 7   Stage 2 again with the escape-aware counter `bscan`, without the
+            side condition esc_ok (strict_success_braces_matched_general).
 
    All statements are about `parse_tokens` / the reader functions on
    ARBITRARY token lists (not only tokenizer outputs, not only grammar
@@ -2009,9 +2016,10 @@ Proof.
   apply eno_free_app in Hf. destruct Hf as [_ Hf].
   rewrite escan_st_app in Hm |- *. rewrite Ha in *.
   simpl in Hm, Hf. rewrite He in Hm, Hf. unfold ebump in Hm. rewrite Hb, Hn in Hm, Hf.
-  destruct (no_escape_scan g Hg b) as [_ F2]. 
+  pose proof (fun d => proj1 (no_escape_scan g Hg b d)) as G1.
+  pose proof (fun d => proj2 (no_escape_scan g Hg b d)) as G2.
   destruct (escan_st false a 0) as [|k]; [discriminate Hf|].
-  rewrite (proj1 (no_escape_scan g Hg b _)) in Hm. rewrite F2 in Hf. simpl in Hm.
+  simpl in Hm. rewrite G1 in Hm. rewrite G2 in Hf.
   replace (S k) with (k + 1)%nat by lia. rewrite (eshift b false k Hf 1). lia.
 Qed.
 
@@ -2094,3 +2102,392 @@ Proof.
   - exists (toks_of doc_bare_begin). eexists. repeat split; vm_compute; reflexivity.
   - exists (toks_of doc_special_begin). eexists. repeat split; vm_compute; reflexivity.
 Qed.
+
+(* ====================================================================== *)
+(* 7. Stage 2 without `esc_ok`: the escape-aware brace counter            *)
+(* ====================================================================== *)
+
+(* as depth_after, but the token after an Escape token (the command name) is
+   skipped whatever its category - this is how the reader consumes it *)
+Definition bbump (t : token) (d : nat) : nat :=
+  if is_tc TGroupBegin t then S d else if is_tc TGroupEnd t then pred d else d.
+
+Fixpoint bscan_st (p : bool) (toks : list token) (d : nat) : nat :=
+  match toks with
+  | [] => d
+  | t :: r => if p then bscan_st false r d
+              else if is_tc TEscape t then bscan_st true r d else bscan_st false r (bbump t d)
+  end.
+Definition bscan : list token -> nat -> nat := bscan_st false.
+
+Lemma bbump_mono t d d' : (d <= d')%nat -> (bbump t d <= bbump t d')%nat.
+Proof. unfold bbump. destruct (is_tc TGroupBegin t); [lia|]. destruct (is_tc TGroupEnd t); lia. Qed.
+
+Lemma bscan_st_mono l : forall p d d', (d <= d')%nat -> (bscan_st p l d <= bscan_st p l d')%nat.
+Proof.
+  induction l as [|t l IH]; intros p d d' H; simpl; [exact H|].
+  destruct p; [apply IH; exact H|].
+  destruct (is_tc TEscape t); apply IH; [exact H | apply bbump_mono; exact H].
+Qed.
+
+Lemma bscan_other c src d : is_tc TEscape c = false -> bscan (c :: src) d = bscan src (bbump c d).
+Proof. intro H. unfold bscan. simpl. rewrite H. reflexivity. Qed.
+
+Lemma bscan_cmd c n src d : is_tc TEscape c = true -> bscan (c :: n :: src) d = bscan src d.
+Proof. intro H. unfold bscan. simpl. rewrite H. reflexivity. Qed.
+
+Lemma bscan_lone c d : is_tc TEscape c = true -> bscan [c] d = d.
+Proof. intro H. unfold bscan. simpl. rewrite H. reflexivity. Qed.
+
+(* on lists whose command names are not braces the two counters agree *)
+Lemma bscan_depth_after toks : esc_ok toks = true -> forall d, bscan toks d = depth_after toks d.
+Proof.
+  assert (G : forall l p d, esc_ok l = true ->
+            (p = true -> match l with n :: _ => is_brace n = false | [] => True end) ->
+            bscan_st p l d = depth_after l d).
+  { induction l as [|t l IH]; intros p d Hok Hp; [reflexivity|].
+    assert (Hok' : esc_ok l = true) by (apply (esc_cond_suffix _ [t] l); exact Hok).
+    simpl. destruct p.
+    - specialize (Hp eq_refl). simpl in Hp. apply brace_split in Hp. destruct Hp as [-> ->].
+      apply IH; [exact Hok' | discriminate].
+    - destruct (is_tc TEscape t) eqn:Et.
+      + rewrite (escape_not_begin t Et).
+        replace (is_tc TGroupEnd t) with false by (symmetry; apply (is_tc_excl _ _ _ Et); discriminate).
+        apply IH; [exact Hok'|]. intros _. destruct l as [|n l']; [exact I|].
+        pose proof (esc_cond_head _ _ _ _ Hok Et) as Hn. cbv beta in Hn.
+        apply negb_true_iff in Hn. exact Hn.
+      + unfold bbump. destruct (is_tc TGroupBegin t); [apply IH; [exact Hok' | discriminate]|].
+        destruct (is_tc TGroupEnd t); apply IH; try exact Hok'; discriminate. }
+  intros Hok d. apply G; [exact Hok | discriminate].
+Qed.
+
+Definition BSeg (toks rest : list token) : Prop := forall d, (bscan toks d <= bscan rest d)%nat.
+Definition BCl (toks rest : list token) : Prop := forall d, (bscan toks (S d) <= bscan rest d)%nat.
+Definition closesB (k : groupkind) (toks rest : list token) : Prop :=
+  match k with GBrace => BCl toks rest | GBracket => BSeg toks rest end.
+
+Lemma BSeg_refl l : BSeg l l.
+Proof. intro d. lia. Qed.
+Lemma BSeg_trans a b c : BSeg a b -> BSeg b c -> BSeg a c.
+Proof. intros H1 H2 d. specialize (H1 d). specialize (H2 d). lia. Qed.
+Lemma BSeg_closes k a b c : BSeg a b -> closesB k b c -> closesB k a c.
+Proof.
+  destruct k; simpl; intros H1 H2 d.
+  - specialize (H1 (S d)). specialize (H2 d). lia.
+  - specialize (H1 d). specialize (H2 d). lia.
+Qed.
+Lemma BSeg_cons t a b :
+  is_tc TEscape t = false -> is_tc TGroupBegin t = false -> BSeg a b -> BSeg (t :: a) b.
+Proof.
+  intros Ht Hb H d. rewrite (bscan_other t a d Ht).
+  assert (L : (bbump t d <= d)%nat).
+  { unfold bbump. rewrite Hb. destruct (is_tc TGroupEnd t); lia. }
+  pose proof (bscan_st_mono a false _ _ L). specialize (H d). unfold bscan in *. lia.
+Qed.
+Lemma BSeg_spacer toks b src1 rest : read_spacer toks = (b, src1) -> BSeg src1 rest -> BSeg toks rest.
+Proof.
+  intros Hs H. apply read_spacer_cases in Hs. destruct Hs as [->|(sp & -> & Hsp)]; [exact H|].
+  apply BSeg_cons; try (apply (is_tc_excl _ _ _ Hsp); discriminate). exact H.
+Qed.
+
+Lemma closesB_end k t src : is_group_end k t = true -> closesB k (t :: src) src.
+Proof.
+  intros H. pose proof (group_end_not_escape k t H) as Ht. destruct k; simpl; intro d.
+  - apply is_group_end_brace in H. rewrite (bscan_other t src _ Ht). unfold bbump.
+    replace (is_tc TGroupBegin t) with false by (symmetry; apply is_tc_false; congruence).
+    replace (is_tc TGroupEnd t) with true by (symmetry; apply is_tc_true; exact H). simpl. lia.
+  - apply is_group_end_bracket in H. rewrite (bscan_other t src _ Ht). unfold bbump.
+    replace (is_tc TGroupBegin t) with false by (symmetry; apply is_tc_false; congruence).
+    replace (is_tc TGroupEnd t) with false by (symmetry; apply is_tc_false; congruence). lia.
+Qed.
+
+Lemma opener_closesB c k toks rest :
+  group_kind_of_begin (tcat c) = Some k -> closesB k toks rest -> BSeg (c :: toks) rest.
+Proof.
+  intros Hk Hc d.
+  assert (Ht : is_tc TEscape c = false) by (apply opener_not_escape; congruence).
+  rewrite (bscan_other c toks d Ht). unfold bbump, is_tc.
+  destruct (tcat c); vm_compute in Hk; try discriminate Hk; inversion Hk; subst k; simpl; apply Hc.
+Qed.
+
+Section GenBalance.
+Variable SK : list str.
+Notation HB := (begins_ok SK).
+
+Lemma HB_suffix rest toks : suffix rest toks -> HB toks = true -> HB rest = true.
+Proof. intros [pre ->] H. eapply esc_cond_suffix; exact H. Qed.
+
+Definition gb_expr f := forall skip m toks e rest,
+  sub_skip SK skip -> HB toks = true ->
+  read_expr f skip true m toks = Ok (e, rest) -> BSeg toks rest.
+Definition gb_item f := forall acc toks es rest,
+  HB toks = true -> read_item_loop f acc toks = Ok (es, rest) -> BSeg toks rest.
+Definition gb_math f := forall k pos acc toks e rest,
+  HB toks = true -> read_math_loop f k pos true acc toks = Ok (e, rest) -> BSeg toks rest.
+Definition gb_env f := forall name args pos skip m acc toks e rest,
+  sub_skip SK skip -> HB toks = true ->
+  read_env_loop f name args pos skip true m acc toks = Ok (e, rest) -> BSeg toks rest.
+Definition gb_command f := forall nreq nopt m toks name args rest,
+  HB toks = true -> read_command f nreq nopt 0 true m toks = Ok ((name, args), rest) ->
+  match toks with [] => rest = [] | _ :: src => BSeg src rest end.
+Definition gb_args f := forall nreq nopt m toks args rest,
+  HB toks = true -> read_args f nreq nopt true m toks = Ok (args, rest) -> BSeg toks rest.
+Definition gb_opt f := forall args nopt m toks args' n' rest,
+  HB toks = true ->
+  read_arg_optional f args nopt true m toks = Ok ((args', n'), rest) -> BSeg toks rest.
+Definition gb_req f := forall args nreq m toks args' n' rest,
+  HB toks = true ->
+  read_arg_required f args nreq true m toks = Ok ((args', n'), rest) -> BSeg toks rest.
+Definition gb_arg f := forall c m toks e rest,
+  HB toks = true -> read_arg f c true m toks = Ok (e, rest) -> BSeg (c :: toks) rest.
+Definition gb_argloop f := forall k pos m acc toks e rest,
+  HB toks = true -> read_arg_loop f k pos true m acc toks = Ok (e, rest) -> closesB k toks rest.
+
+Definition gb_all f :=
+  gb_expr f /\ gb_item f /\ gb_math f /\ gb_env f /\ gb_command f /\ gb_args f /\
+  gb_opt f /\ gb_req f /\ gb_arg f /\ gb_argloop f.
+
+Lemma gb_all_holds : forall f, gb_all f.
+Proof.
+  induction f as [|f IH].
+  { unfold gb_all, gb_expr, gb_item, gb_math, gb_env, gb_command, gb_args, gb_opt,
+      gb_req, gb_arg, gb_argloop.
+    repeat match goal with |- _ /\ _ => split end; intros; simpl in *; discriminate. }
+  destruct IH as (Be & Bi & Bm & Bv & Bc & Ba & Bo & Br & Bg & Bl).
+  unfold gb_all.
+  assert (Hargloop : gb_argloop (S f)).
+  { unfold gb_argloop. intros k pos m acc toks e rest Hy H. cbn [read_arg_loop] in H.
+    destruct toks as [|t src]; [discriminate|].
+    destruct (is_group_end k t) eqn:Eend.
+    - inversion H; subst. apply closesB_end. exact Eend.
+    - apply bind_ok in H. destruct H as ([e1 src1] & He & H).
+      pose proof (sufx_expr _ _ _ _ _ _ _ He) as S1.
+      apply Be in He; [|exact (no_skip' SK) | exact Hy].
+      apply Bl in H; [|exact (HB_suffix _ _ S1 Hy)].
+      eapply BSeg_closes; eassumption. }
+  assert (Harg : gb_arg (S f)).
+  { unfold gb_arg. intros c m toks e rest Hy H. cbn [read_arg] in H.
+    destruct (group_kind_of_begin (tcat c)) as [k|] eqn:Ek; [|discriminate].
+    apply Bl in H; [|exact Hy]. eapply opener_closesB; eassumption. }
+  assert (Hmath : gb_math (S f)).
+  { unfold gb_math. intros k pos acc toks e rest Hy H. cbn [read_math_loop] in H.
+    destruct toks as [|t src]; [discriminate|].
+    destruct (is_math_end k t) eqn:Eend.
+    - inversion H; subst.
+      apply BSeg_cons; [eapply math_end_not_escape; exact Eend
+                       | eapply math_end_not_begin; exact Eend | apply BSeg_refl].
+    - apply bind_ok in H. destruct H as ([e1 src1] & He & H).
+      pose proof (sufx_expr _ _ _ _ _ _ _ He) as S1.
+      apply Be in He; [|exact (no_skip' SK) | exact Hy].
+      apply Bm in H; [|exact (HB_suffix _ _ S1 Hy)]. eapply BSeg_trans; eassumption. }
+  assert (Hitem : gb_item (S f)).
+  { unfold gb_item. intros acc toks es rest Hy H. cbn [read_item_loop] in H.
+    assert (Hstep : forall es rest,
+      bind (read_expr f [] true MNonMath toks)
+           (fun '(e, src1) => read_item_loop f (acc ++ [e]) src1) = Ok (es, rest) ->
+      BSeg toks rest).
+    { intros es' rest' H'. apply bind_ok in H'. destruct H' as ([e1 src1] & He & H').
+      pose proof (sufx_expr _ _ _ _ _ _ _ He) as S1.
+      apply Be in He; [|exact (no_skip' SK) | exact Hy].
+      apply Bi in H'; [|exact (HB_suffix _ _ S1 Hy)]. eapply BSeg_trans; eassumption. }
+    assert (Hstop : forall es rest, Ok (acc, toks) = Ok (es, rest) -> BSeg toks rest).
+    { intros es' rest' H'. inversion H'; subst. apply BSeg_refl. }
+    destruct toks as [|t src]; [eapply Hstop; exact H|].
+    destruct (is_tc TEscape t).
+    - apply bind_ok in H. destruct H as ([[cname cargs] crest] & _ & H).
+      destruct (str_eqb cname s_end || str_eqb cname s_item); [eapply Hstop | eapply Hstep]; exact H.
+    - destruct (is_tc TGroupEnd t); [eapply Hstop | eapply Hstep]; exact H. }
+  assert (Hopt : gb_opt (S f)).
+  { unfold gb_opt. intros args nopt m toks args' n' rest Hy H. cbn [read_arg_optional] in H.
+    assert (Hstop : forall a' k' r', Ok (args, nopt, toks) = Ok (a', k', r') -> BSeg toks r').
+    { intros a' k' r' H'. inversion H'; subst. apply BSeg_refl. }
+    destruct (nopt =? 0)%Z; [exact (Hstop _ _ _ H)|].
+    destruct (read_spacer toks) as [b src1] eqn:Esp.
+    destruct src1 as [|c src2]; [exact (Hstop _ _ _ H)|].
+    destruct (is_tc TBracketBegin c) eqn:Ec; [|exact (Hstop _ _ _ H)].
+    apply bind_ok in H. destruct H as ([g src3] & Hg & H).
+    assert (Hy2 : HB src2 = true).
+    { eapply HB_suffix; [eapply suffix_after_spacer; exact Esp | exact Hy]. }
+    pose proof (sufx_arg _ _ _ _ _ _ _ Hg) as S3.
+    apply Bg in Hg; [|exact Hy2].
+    apply Bo in H; [|exact (HB_suffix _ _ S3 Hy2)].
+    eapply BSeg_spacer; [exact Esp|]. eapply BSeg_trans; eassumption. }
+  assert (Hreq : gb_req (S f)).
+  { unfold gb_req. intros args nreq m toks args' n' rest Hy H. cbn [read_arg_required] in H.
+    assert (Hstop : forall a' k' r', Ok (args, nreq, toks) = Ok (a', k', r') -> BSeg toks r').
+    { intros a' k' r' H'. inversion H'; subst. apply BSeg_refl. }
+    destruct (nreq =? 0)%Z; [exact (Hstop _ _ _ H)|].
+    destruct toks as [|t0 ts0]; [exact (Hstop _ _ _ H)|].
+    destruct (read_spacer (t0 :: ts0)) as [b src1] eqn:Esp.
+    destruct src1 as [|c src2]; [exact (Hstop _ _ _ H)|].
+    assert (Hy2 : HB src2 = true).
+    { eapply HB_suffix; [eapply suffix_after_spacer; exact Esp | exact Hy]. }
+    destruct (is_tc TGroupBegin c) eqn:Ec.
+    - apply bind_ok in H. destruct H as ([g src3] & Hg & H).
+      pose proof (sufx_arg _ _ _ _ _ _ _ Hg) as S3.
+      apply Bg in Hg; [|exact Hy2].
+      apply Br in H; [|exact (HB_suffix _ _ S3 Hy2)].
+      eapply BSeg_spacer; [exact Esp|]. eapply BSeg_trans; eassumption.
+    - destruct (0 <? nreq)%Z; [|exact (Hstop _ _ _ H)].
+      destruct (is_tc TEscape c) eqn:Ee.
+      + apply bind_ok in H. destruct H as ([[cname cargs] src3] & Hc & H).
+        pose proof (sufx_command _ _ _ _ _ _ _ _ _ _ Hc) as S3.
+        change (skipn 0 src2) with src2 in S3.
+        apply Bc in Hc; [|exact Hy2].
+        apply Br in H; [|exact (HB_suffix _ _ S3 Hy2)].
+        eapply BSeg_spacer; [exact Esp|].
+        destruct src2 as [|n src].
+        * subst src3. intro d. rewrite (bscan_lone c d Ee). specialize (H d).
+          unfold bscan in *. simpl in H. exact H.
+        * intro d. rewrite (bscan_cmd c n src d Ee). specialize (Hc d). specialize (H d). lia.
+      + apply Br in H; [|exact Hy2].
+        eapply BSeg_spacer; [exact Esp|]. apply BSeg_cons; assumption. }
+  assert (Hargs : gb_args (S f)).
+  { unfold gb_args. intros nreq nopt m toks args rest Hy H. cbn [read_args] in H.
+    destruct ((nreq =? 0)%Z && (nopt =? 0)%Z).
+    { inversion H; subst. apply BSeg_refl. }
+    apply bind_ok in H. destruct H as ([[args1 nopt1] src1] & H1 & H).
+    pose proof (HB_suffix _ _ (sufx_opt _ _ _ _ _ _ _ _ _ H1) Hy) as Hy1.
+    apply Bo in H1; [|exact Hy].
+    apply bind_ok in H. destruct H as ([[args2 nreq1] src2] & H2 & H).
+    pose proof (HB_suffix _ _ (sufx_req _ _ _ _ _ _ _ _ _ H2) Hy1) as Hy2.
+    apply Br in H2; [|exact Hy1].
+    apply bind_ok in H. destruct H as ([[args3 n3] src3] & H3 & H).
+    assert (S3 : BSeg src2 src3 /\ suffix src3 src2).
+    { destruct src2 as [|t2 ts2]; [inversion H3; subst; split; [apply BSeg_refl | apply suffix_refl]|].
+      destruct (is_tc TBracketBegin t2);
+        [|inversion H3; subst; split; [apply BSeg_refl | apply suffix_refl]].
+      split; [eapply Bo; eassumption | eapply sufx_opt; exact H3]. }
+    destruct S3 as [S3 S3'].
+    pose proof (HB_suffix _ _ S3' Hy2) as Hy3.
+    apply bind_ok in H. destruct H as ([[args4 n4] src4] & H4 & H).
+    inversion H; subst args4 src4. clear H.
+    assert (S4 : BSeg src3 rest).
+    { destruct src3 as [|t3 ts3]; [inversion H4; subst; apply BSeg_refl|].
+      destruct (is_tc TGroupBegin t3); [|inversion H4; subst; apply BSeg_refl].
+      eapply Br; eassumption. }
+    eapply BSeg_trans; [exact H1|]. eapply BSeg_trans; [exact H2|].
+    eapply BSeg_trans; [exact S3 | exact S4]. }
+  assert (Hcmd : gb_command (S f)).
+  { unfold gb_command. intros nreq nopt m toks name args rest Hy H.
+    cbn [read_command] in H. change (skipn 0 toks) with toks in H.
+    replace (length toks <? 0)%nat with false in H by (symmetry; apply Nat.ltb_ge; lia).
+    destruct toks as [|nt src]; [inversion H; reflexivity|].
+    destruct (if (nreq <? 0)%Z && (nopt <? 0)%Z then signature_of (ttext nt) else (nreq, nopt))
+      as [nr no].
+    apply bind_ok in H. destruct H as ([args1 src1] & Ha & H). inversion H; subst.
+    eapply Ba; [|exact Ha]. eapply HB_suffix; [apply suffix_tail | exact Hy]. }
+  assert (Henv : gb_env (S f)).
+  { unfold gb_env. intros name args pos skip m acc toks e rest Hsk Hy H.
+    cbn [read_env_loop] in H.
+    assert (Hstep : forall e rest,
+      bind (read_expr f skip true m toks)
+           (fun '(e0, src1) => read_env_loop f name args pos skip true m (acc ++ [e0]) src1)
+        = Ok (e, rest) -> BSeg toks rest).
+    { intros e' rest' H'. apply bind_ok in H'. destruct H' as ([e1 src1] & He & H').
+      pose proof (sufx_expr _ _ _ _ _ _ _ He) as S1.
+      apply Be in He; [|exact Hsk | exact Hy].
+      apply Bv in H'; [|exact Hsk | exact (HB_suffix _ _ S1 Hy)].
+      eapply BSeg_trans; eassumption. }
+    destruct toks as [|t l]; [discriminate|].
+    destruct (is_tc TEscape t) eqn:Et; [|exact (Hstep _ _ H)].
+    apply bind_ok in H. destruct H as ([[cname cargs] crest] & Hpeek & H).
+    destruct (str_eqb cname s_end) eqn:Eend; [|exact (Hstep _ _ H)].
+    destruct cargs as [|a0 cargs]; [discriminate|].
+    destruct (negb (str_eqb (arg_string a0) name)); [discriminate|].
+    destruct (read_spacer (skipn 2 (t :: l))) as [b src2] eqn:Esp.
+    destruct src2 as [|c src3]; [discriminate|].
+    apply bind_ok in H. destruct H as ([g grest] & Harg' & H). inversion H; subst.
+    apply peek_shape in Hpeek. destruct Hpeek as [[_ ->]|(nm & src & -> & ->)].
+    { apply str_eqb_eq in Eend. discriminate Eend. }
+    change (skipn 2 (t :: nm :: src)) with src in Esp.
+    assert (Hy3 : HB src3 = true).
+    { eapply HB_suffix; [|exact Hy].
+      eapply suffix_trans; [eapply suffix_after_spacer; exact Esp|].
+      apply suffix_cons, suffix_tail. }
+    apply Bg in Harg'; [|exact Hy3].
+    intro d. rewrite (bscan_cmd t nm src d Et).
+    assert (S1 : BSeg src rest) by (eapply BSeg_spacer; [exact Esp | exact Harg']).
+    apply S1. }
+  assert (Hexpr : gb_expr (S f)).
+  { unfold gb_expr. intros skip m toks e rest Hsk Hy H. cbn [read_expr] in H.
+    destruct toks as [|c src]; [discriminate|].
+    assert (Hys : HB src = true) by (eapply HB_suffix; [apply suffix_tail | exact Hy]).
+    destruct (math_kind_of_begin (tcat c)) as [k|] eqn:Ek.
+    { apply Bm in H; [|exact Hys]. apply BSeg_cons; [| |exact H].
+      - apply is_tc_false. intro E. rewrite E in Ek. vm_compute in Ek. discriminate Ek.
+      - eapply math_begin_not_begin; exact Ek. }
+    destruct (is_tc TEscape c) eqn:Ec.
+    2:{ destruct (is_tc TGroupBegin c) eqn:Eg.
+        - eapply Bg; eassumption.
+        - inversion H; subst. apply BSeg_cons; [exact Ec | exact Eg | apply BSeg_refl]. }
+    apply bind_ok in H. destruct H as ([[name args] src1] & Hcm & H).
+    pose proof Hcm as Hcm2. pose proof (sufx_command _ _ _ _ _ _ _ _ _ _ Hcm) as S1.
+    change (skipn 0 src) with src in S1.
+    apply Bc in Hcm; [|exact Hys].
+    destruct src as [|n rest0].
+    { subst src1. apply read_command_nil in Hcm2. destruct Hcm2 as (-> & -> & _).
+      simpl in H. inversion H; subst. intro d. rewrite (bscan_lone c d Ec). unfold bscan. simpl. lia. }
+    pose proof (read_command_name _ _ _ _ _ _ _ _ _ _ Hcm2) as En. subst name.
+    pose proof (HB_suffix _ _ S1 Hys) as Hy1.
+    assert (Hhead : forall rest', BSeg src1 rest' -> BSeg (c :: n :: rest0) rest').
+    { intros rest' Hr d. rewrite (bscan_cmd c n rest0 d Ec). specialize (Hcm d). specialize (Hr d). lia. }
+    destruct (str_eqb (ttext n) s_item) eqn:Eitem.
+    { destruct (mode_is_math m); [discriminate|].
+      apply bind_ok in H. destruct H as ([contents src2] & Hit & H). inversion H; subst.
+      apply Hhead. eapply Bi; eassumption. }
+    destruct (str_eqb (ttext n) s_begin && negb (mode_is_special m)) eqn:Ebegin.
+    2:{ inversion H; subst. apply Hhead. apply BSeg_refl. }
+    apply andb_true_iff in Ebegin. destruct Ebegin as [Ebegin _].
+    pose proof (esc_cond_head _ _ _ _ Hy Ec) as Hbo. cbv beta in Hbo. rewrite Ebegin in Hbo.
+    destruct (begin_args SK _ _ _ _ _ _ _ _ skip Ebegin Hbo Hsk Hcm2) as (a0 & args' & -> & Hns).
+    rewrite Hns in H. apply Hhead. eapply Bv; eassumption. }
+  repeat match goal with |- _ /\ _ => split end; assumption.
+Qed.
+
+Lemma read_tex_loop_gen_balanced fuel efuel skip : forall acc toks body,
+  sub_skip SK skip -> HB toks = true ->
+  read_tex_loop fuel efuel skip true acc toks = Ok body -> BSeg toks [].
+Proof.
+  induction fuel as [|fu IH]; intros acc toks body Hsk Hy H; [discriminate|].
+  cbn [read_tex_loop] in H. destruct toks as [|t ts]; [apply BSeg_refl|].
+  apply bind_ok in H. destruct H as ([e rest] & He & H).
+  pose proof (sufx_expr _ _ _ _ _ _ _ He) as S1.
+  apply (proj1 (gb_all_holds efuel)) in He; [|exact Hsk | exact Hy].
+  eapply BSeg_trans; [exact He|]. eapply IH; [exact Hsk | | exact H].
+  exact (HB_suffix _ _ S1 Hy).
+Qed.
+
+End GenBalance.
+
+(* Stage 2 for ALL token lists on which no `\begin` opens a skip environment:
+   a strict success matched every `{` token that is not a command name *)
+Theorem strict_success_braces_matched_general toks user t :
+  begins_ok (Tables.skip_env_names ++ user) toks = true ->
+  parse_tokens toks true user = Ok t -> bscan toks 0 = 0%nat.
+Proof.
+  intros Hy H. unfold parse_tokens in H. apply bind_ok in H. destruct H as (body & Hb & _).
+  apply (read_tex_loop_gen_balanced (Tables.skip_env_names ++ user)) in Hb;
+    [|intros n Hn; exact Hn | exact Hy].
+  specialize (Hb 0%nat). unfold bscan in *. simpl in Hb. lia.
+Qed.
+
+Theorem unmatched_brace_strict_fails_general toks user :
+  begins_ok (Tables.skip_env_names ++ user) toks = true -> bscan toks 0 <> 0%nat ->
+  parse_tokens toks true user = Err EOFError \/
+  parse_tokens toks true user = Err TypeError \/
+  parse_tokens toks true user = Err AssertionError.
+Proof.
+  intros Hy Hd. apply not_ok_diag. intros t H.
+  apply strict_success_braces_matched_general in H; [|exact Hy]. contradiction.
+Qed.
+
+(* the token list that refutes Stage 2 without esc_ok is covered: `{` is the
+   command name there and is not counted *)
+Example strict_success_braces_matched_general_ex :
+  esc_ok (toks_of doc_nul) = false /\ begins_ok SK0 (toks_of doc_nul) = true /\
+  (exists t, parse_tokens (toks_of doc_nul) true [] = Ok t) /\
+  bscan (toks_of doc_nul) 0 = 0%nat /\ depth_after (toks_of doc_nul) 0 = 1%nat /\
+  begins_ok SK0 (toks_of doc_nest_a) = true /\ bscan (toks_of doc_nest_a) 0 = 1%nat /\
+  parse_tokens (toks_of doc_nest_a) true [] = Err TypeError.
+Proof. repeat split; try (vm_compute; reflexivity). eexists. vm_compute. reflexivity. Qed.
